@@ -5,6 +5,19 @@ from common import *
 PID = "C20"
 
 
+def generic_only_configs():
+    """actors whose value-returning methods are all generic (their reply senders travel inside closures, no Script variant names one) or that return
+    nothing at all: in-flight callers wait for replies there too, the receiver must drain on every runtime"""
+    cs = []
+    item = ("impl A {\n    pub fn new(v: i8) -> Self { todo!() }\n    pub fn inc(&mut self) {}\n"
+            "    pub fn gen<T: Into<i8> + Send + 'static>(&mut self, t: T) -> i8 { 0 }\n    pub fn vgen<T: Into<i8> + Send + 'static>(&mut self, t: T) {}\n}")
+    for lib in gen_impl.LIBS:
+        for ch in (None, 2):
+            cs.append({"kind": "actor", "lib": lib, "attr": gen_impl.actor_attr(lib, ch), "item": item, "nmodels": 1,
+                       "label": "generic-replies lib=%s channel=%s" % (lib, ch), "cfg": (lib, ch, "generic-replies")})
+    return cs
+
+
 def run(rep):
     rng = random.Random(rep.seed)
     rep.extra["rule"] = ("instances = real expansions for lib x channel x debut x impl blocks; probe scenarios = panic injected into an executing method with callers "
@@ -22,9 +35,9 @@ def run(rep):
         ["fun (A V : Type) sem sem_slf dv => @C20_loud A V sem sem_slf dv {i} {w}",
          "fun (A V : Type) sem sem_slf dv => @C20_no_fabrication A V sem sem_slf dv {i} {w}",
          "fun (A V : Type) sem sem_slf dv => @C20_no_hang A V sem sem_slf dv {i} {w} (eq_refl true <: r_drain (elab {i}) = true)"],
-        rt_common.std_configs(rng, rep.tier),
-        dfs=("bad_silent", "true"),
-        search="c20_search", search_what="client 0 makes a method panic, clients 1 and 2 then call every method (Runtime/Explore.v faulted); anomalies: 1 completed without execution and without panic, 2 fabricated value, 3 caller still inside a call at the end",
+        rt_common.std_configs(rng, rep.tier) + generic_only_configs(),
+        dfs=("(bad_c20 {m})", "true"), dfs_when=lambda r: r["drain"] != "true",
+        search="c20_search", search_what="client 0 makes a method panic, clients 1 and 2 then call every method (Runtime/Explore.v faulted); anomalies: 1 completed without execution and without panic, 2 fabricated value, 3 caller still inside a call at the end; dfs monitor: a call completed silently, or a caller inside a call has no enabled step although the actor is dead",
         extra_funs=[("drain", "r_drain (elab {i})")], per_model_check=per_model)
     ndrain = sum(1 for r in res if r["drain"] == "true")
     rep.notes.append("C20_no_hang instantiated for %d instances with a draining receiver (std, tokio) or a drain guard in play (async_std, smol); %d instances without" % (ndrain, len(res) - ndrain))
